@@ -103,8 +103,16 @@ namespace hv {
 
     // attach the calling thread to libcds for the lifetime of the object
     struct Attach {
-        Attach() { cds::threading::Manager::attachThread(); }
-        ~Attach() { cds::threading::Manager::detachThread(); }
+        Attach()
+        {
+            cdsverif::gap_freeze f;
+            cds::threading::Manager::attachThread();
+        }
+        ~Attach()
+        {
+            cdsverif::gap_freeze f;
+            cds::threading::Manager::detachThread();
+        }
     };
 
     // SMR singletons constructed and destroyed inside every case
